@@ -598,8 +598,42 @@ func c09FormatStrings(c *Ctx, rule string) {
 			}
 			n++
 			_, isConst := ir.ConstStr(args[1])
-			if _, isParam := args[1].(*ssa.Parameter); isParam {
-				isConst = true // a printf-style wrapper: its callers' formats are judged where they are written
+			if prm, isParam := args[1].(*ssa.Parameter); isParam {
+				// a printf-style wrapper: the formats are what its callers write
+				isConst = true
+				var judge func(f *ssa.Function, p *ssa.Parameter, d int)
+				judge = func(f *ssa.Function, p *ssa.Parameter, d int) {
+					idx := -1
+					for i, q := range f.Params {
+						if q == p {
+							idx = i
+						}
+					}
+					for _, e := range ir.Callers(c.G, f) {
+						if e.Site == nil || !c.P.IsLib(e.Caller.Func) || idx < 0 {
+							continue
+						}
+						cargs := e.Site.Common().Args
+						ai := idx
+						if e.Site.Common().IsInvoke() {
+							ai--
+						}
+						if ai < 0 || ai >= len(cargs) {
+							continue
+						}
+						if _, ok := ir.ConstStr(cargs[ai]); ok {
+							continue
+						}
+						if p2, ok := cargs[ai].(*ssa.Parameter); ok && d < 2 {
+							judge(e.Caller.Func, p2, d+1)
+							continue
+						}
+						n++
+						c.R.Violate(rule, "format handed to "+fname(f)+" by "+fname(e.Caller.Func), c.Pos(e.Site.Pos()),
+							sprintf("%s passes a computed string as the FORMAT of the printf-style writer %s (which hands it to fmt.Fprintf on a stream): any '%%' in the payload is re-interpreted as a verb and the frame arrives mangled", fname(e.Caller.Func), fname(f)))
+					}
+				}
+				judge(fn, prm, 0)
 			}
 			c.R.Check(isConst, rule, "format of Fprintf in "+fname(fn), c.Pos(call.Pos()), "constant format string",
 				sprintf("%s passes a computed string as the FORMAT of fmt.Fprintf to a stream: any '%%' in the payload is re-interpreted as a verb and the frame arrives mangled", fname(fn)))
@@ -617,6 +651,7 @@ func checkC09Payload(c *Ctx) {
 	c09NoWriteDeadline(c, "R-frame-complete")
 	c09EncoderFramed(c, "R-frame-terminated")
 	c10OneResponder(c, "R-one-responder")
+	c09DataLineWhole(c, "R-data-line-whole")
 	// (a) fmt.Fprintf(w, "...data: %s...", payload): payload must come from json.Marshal
 	// (b) functions that write a payload followed by "\n" to an io.Writer param (stdio line writer): payload from json.Marshal
 	for _, fn := range c.P.LibFns {
@@ -1086,5 +1121,146 @@ func c09EncoderFramed(c *Ctx, rule string) {
 	}
 	if len(keys) == 0 {
 		c.R.Break("%s: no stream framed by a json.Encoder found (expected the stdio client's stdin)", rule)
+	}
+}
+
+// ---------------------------------------------------------------- R-data-line-whole
+// An SSE receiver joins the data lines of one event with a newline. A function that emits "data: " lines may therefore
+// start a new data line only where the payload itself has a newline: a payload (a parameter of the function, or a
+// piece of it obtained by splitting on "\n") cut by a slice expression at any other offset — a length limit — puts a
+// raw newline into the reassembled JSON text, and the message is no longer one JSON-RPC object.
+func c09DataLineWhole(c *Ctx, rule string) {
+	n := 0
+	for _, fn := range c.P.LibFns {
+		if clientSide(c, fn) {
+			continue
+		}
+		emits := false
+		ir.EachInstr(fn, func(_ *ssa.BasicBlock, _ int, in ssa.Instruction) {
+			call, ok := in.(ssa.CallInstruction)
+			if !ok {
+				return
+			}
+			for _, a := range call.Common().Args {
+				if s, ok := ir.ConstStr(ir.Unwrap(a)); ok && strings.HasPrefix(s, "data: ") {
+					emits = true
+				}
+				if cv, ok := a.(*ssa.Convert); ok {
+					if s, ok := ir.ConstStr(cv.X); ok && strings.HasPrefix(s, "data: ") {
+						emits = true
+					}
+				}
+			}
+		})
+		if !emits {
+			continue
+		}
+		n++
+		// values that are (pieces of) the payload: string / []byte parameters and what is derived from them
+		fromParam := func(v ssa.Value) bool {
+			seen := map[ssa.Value]bool{}
+			var walk func(v ssa.Value, d int) bool
+			walk = func(v ssa.Value, d int) bool {
+				if v == nil || d > 10 || seen[v] {
+					return false
+				}
+				seen[v] = true
+				switch x := v.(type) {
+				case *ssa.Parameter:
+					return true
+				case *ssa.Convert:
+					return walk(x.X, d+1)
+				case *ssa.Slice:
+					return walk(x.X, d+1)
+				case *ssa.Phi:
+					for _, e := range x.Edges {
+						if walk(e, d+1) {
+							return true
+						}
+					}
+				case *ssa.UnOp:
+					return walk(x.X, d+1)
+				case *ssa.IndexAddr:
+					return walk(x.X, d+1)
+				case *ssa.Index:
+					return walk(x.X, d+1)
+				case *ssa.Extract:
+					return walk(x.Tuple, d+1)
+				case *ssa.Next:
+					return walk(x.Iter, d+1)
+				case *ssa.Range:
+					return walk(x.X, d+1)
+				case *ssa.Call:
+					switch ir.CallName(x) {
+					case "strings.Split", "bytes.Split", "strings.ReplaceAll", "bytes.ReplaceAll", "strings.SplitN", "strings.TrimSuffix", "strings.TrimRight":
+						return walk(x.Call.Args[0], d+1)
+					}
+				}
+				return false
+			}
+			return walk(v, 0)
+		}
+		atNewline := func(v ssa.Value) bool {
+			if v == nil {
+				return true
+			}
+			if _, isConst := v.(*ssa.Const); isConst {
+				return false
+			}
+			seen := map[ssa.Value]bool{}
+			var walk func(v ssa.Value, d int) bool
+			walk = func(v ssa.Value, d int) bool {
+				if v == nil || d > 6 || seen[v] {
+					return false
+				}
+				seen[v] = true
+				switch x := v.(type) {
+				case *ssa.Call:
+					nme := ir.CallName(x)
+					return strings.HasPrefix(nme, "strings.Index") || strings.HasPrefix(nme, "bytes.Index") || strings.HasPrefix(nme, "strings.LastIndex") || strings.HasPrefix(nme, "bytes.LastIndex")
+				case *ssa.BinOp:
+					return walk(x.X, d+1) || walk(x.Y, d+1)
+				case *ssa.Phi:
+					for _, e := range x.Edges {
+						if walk(e, d+1) {
+							return true
+						}
+					}
+				}
+				return false
+			}
+			return walk(v, 0)
+		}
+		bad := ""
+		ir.EachInstr(fn, func(_ *ssa.BasicBlock, _ int, in ssa.Instruction) {
+			sl, ok := in.(*ssa.Slice)
+			if !ok || bad != "" {
+				return
+			}
+			switch t := sl.X.Type().Underlying().(type) {
+			case *types.Basic:
+				if t.Info()&types.IsString == 0 {
+					return
+				}
+			case *types.Slice:
+				if b, ok := t.Elem().Underlying().(*types.Basic); !ok || b.Kind() != types.Uint8 {
+					return
+				}
+			default:
+				return
+			}
+			if (sl.Low == nil && sl.High == nil) || !fromParam(sl.X) {
+				return
+			}
+			if atNewline(sl.Low) && atNewline(sl.High) {
+				return
+			}
+			bad = c.Pos(sl.Pos())
+		})
+		c.R.Check(bad == "", rule, "data lines of "+fname(fn), c.Pos(fn.Pos()), "the payload is divided into data lines only at its own newlines",
+			sprintf("%s emits SSE data lines and cuts the payload with a slice expression at %s, at an offset that is not the position of a newline in it (a length limit): the receiver joins data lines with a newline, so a long message arrives with a raw line break inside its JSON text and is not a well-formed JSON-RPC message", fname(fn), bad))
+	}
+	if n < 2 {
+		c.R.Break("%s: only %d functions emitting SSE data lines found", rule, n)
 	}
 }
